@@ -57,10 +57,26 @@ pub enum Item {
     Batch(BatchSpec),
     /// thread-local registration (position among the items is irrelevant for shred, kept for C19)
     Tl(TlSpec),
-    /// a registration attempt that is ill-formed (0: unknown dependency, 1: reuses the name of an
-    /// earlier system), panics, is caught by the caller - who carries on with the same builder.
-    /// It registers nothing.
+    /// a registration attempt that panics and is caught by the caller - who carries on with the same
+    /// builder. It registers nothing. Low nibble: 0 unknown dependency, 1 reuses the name of an
+    /// earlier system (ill-formed calls); 2..5: the system's own code panics while the builder
+    /// inspects it (`Accessor::reads`, `Accessor::writes`, `running_time`, `accessor`);
+    /// `FAILED_NAMED` set: that system was given a (fresh, never referenced) name.
     Failed(u8),
+}
+
+pub const FAILED_NAMED: u8 = 16;
+
+pub fn failed_label(k: u8) -> String {
+    let what = match k & 15 {
+        0 => "unknown dependency",
+        1 => "reused name",
+        2 => "the system's Accessor::reads panics",
+        3 => "the system's Accessor::writes panics",
+        4 => "the system's running_time panics",
+        _ => "the system's accessor() panics",
+    };
+    format!("FAILED-ADD({}{}, caught)", what, if k & 15 >= 2 && k & FAILED_NAMED != 0 { ", named" } else { "" })
 }
 
 #[derive(Clone, Debug, Default)]
@@ -286,7 +302,7 @@ impl Plan {
         for it in &self.items {
             a.push(match it {
                 Item::Barrier => J::Str("BARRIER".into()),
-                Item::Failed(k) => J::Str(if *k == 0 { "FAILED-ADD(unknown dependency, caught)".into() } else { "FAILED-ADD(reused name, caught)".into() }),
+                Item::Failed(k) => J::Str(failed_label(*k)),
                 Item::Tl(t) => J::obj()
                     .set("tl", t.uid)
                     .set("r", slots_json(&t.reads))
